@@ -1643,6 +1643,41 @@ class _Parallel:
         return out
 
 
+class Recorder:
+    """abstract matplotlib Axes / pyplot: an ordered log of drawing calls (ghost state for C20).
+    `plot([x0, x1], [y0, y1], ...)` is logged as [x0, x1, y0, y1, style] with style = 1 for the emphasised style
+    (solid / width 2 / 'C3'), 0 otherwise; every other method is logged by name in `other`."""
+
+    def __init__(self, name):
+        self.name = name
+        self.plots = AppendList(0, lambda k: [0, 0, 0, 0, 0])
+        self.other = []
+
+    def __getattr__(self, m):
+        if m.startswith("__"):
+            raise AttributeError(m)
+
+        def call(*a, **k):
+            if m == "plot" and len(a) >= 2 and isinstance(a[0], (list, tuple)) and len(a[0]) == 2:
+                strong = k.get("linestyle") == "-" or k.get("linewidth") == 2 or "C3" in [x for x in a[2:] if isinstance(x, str)] or k.get("c") == "C3"
+                self.plots.append([a[0][0], a[0][1], a[1][0], a[1][1], 1 if strong else 0])
+                return None
+            if m == "gca":
+                return cur().ghost.setdefault("gca_axes", Recorder("gca"))
+            self.other.append((m, a, k))
+            return None
+        return call
+
+
+class PltProxy:
+    """`matplotlib.pyplot` as seen by interpreted code: one Recorder per path"""
+
+    def __getattr__(self, m):
+        if m.startswith("__"):
+            raise AttributeError(m)
+        return getattr(cur().ghost.setdefault("plt_rec", Recorder("plt")), m)
+
+
 class Opaque:
     """stand-in for a library object we never call into during interpretation"""
 
@@ -1729,6 +1764,8 @@ def _module_model(eng, name, module):
         return NP
     if name == "sklearn.metrics" or name == "sklearn":
         return _Metrics()
+    if name == "matplotlib.pyplot":
+        return PltProxy()
     if name == "warnings":
         return _Warnings()
     if name == "itertools":
